@@ -311,36 +311,62 @@ func c11r1(c *Ctx) {
 		good := true
 		for _, vc := range worker.CallsTo(false, validateBlock) {
 			chk := worker.CheckOf(vc.Expr)
-			for n := range worker.ReachableAfterFailure(chk.Fail) {
-				rs, ok := n.AST.(*ast.ReturnStmt)
+			var st []*cfgx.Visit
+			for _, e := range chk.Fail {
+				st = append(st, cfgx.StartAfter(e, 0))
+			}
+			// per path: the response may be built field by field and returned at one exit
+			worker.ExploreFeasibleWith(st, cfgx.Walker{}, func(v *cfgx.Visit, val func(types.Object) uint64) {
+				rs, ok := v.Node.AST.(*ast.ReturnStmt)
 				if !ok {
-					continue
+					return
 				}
 				if len(rs.Results) != 1 {
 					good = false
-					continue
+					return
 				}
 				cl, ok := ast.Unparen(rs.Results[0]).(*ast.CompositeLit)
 				if !ok {
 					good = false
-					continue
+					return
+				}
+				// a field is empty on this path when it is absent, nil, or a variable known to be nil here
+				empty := func(e ast.Expr) bool {
+					if worker.IsNil(e) {
+						return true
+					}
+					o := worker.ObjOf(e)
+					return o != nil && val(o)&1 == 0
+				}
+				nonNil := func(e ast.Expr) bool {
+					if o := worker.ObjOf(e); o != nil && val(o)&2 == 0 {
+						return true
+					}
+					call, isCall := ast.Unparen(e).(*ast.CallExpr)
+					return isCall && worker.P.AlwaysErr(worker.Callee(call), 0)
 				}
 				hasErr := false
 				for _, el := range cl.Elts {
 					if kv, ok := el.(*ast.KeyValueExpr); ok {
 						k := kv.Key.(*ast.Ident).Name
-						if k == "blocks" || k == "states" {
+						if (k == "blocks" || k == "states") && !empty(kv.Value) {
 							good = false
 						}
 						if k == "err" {
-							hasErr = true
+							// the failure paths of the baseline hand the validation error itself on; a variable
+							// whose value is not followed is accepted as before
+							if o := worker.ObjOf(kv.Value); o != nil && val(o) == 3 {
+								hasErr = true
+							} else if nonNil(kv.Value) {
+								hasErr = true
+							}
 						}
 					}
 				}
 				if !hasErr {
 					good = false
 				}
-			}
+			})
 		}
 		ob.Check(good, nil, "after a block failed validation the worker can return a response that still carries blocks/states or no error")
 	}
@@ -514,6 +540,33 @@ func c11r2(c *Ctx) {
 							return st, true
 						},
 					})
+					if leak {
+						// second opinion, with error variables followed per path by the engine (copies of a helper's error,
+						// joint tests that were threaded away): a return that has not crossed the passing edge must hand
+						// back an error that is non-nil on that path
+						leak = false
+						f.ExploreFeasibleWith([]*cfgx.Visit{cfgx.StartAt(g.Entry, 0)}, cfgx.Walker{
+							OnEdge: func(e *cfgx.Edge, st cfgx.State) (cfgx.State, bool) {
+								if e == pass {
+									st |= 2
+								}
+								return st, true
+							},
+						}, func(v *cfgx.Visit, val func(types.Object) uint64) {
+							rs, isRet := v.Node.AST.(*ast.ReturnStmt)
+							if !isRet || v.State&2 != 0 || len(rs.Results) == 0 {
+								return
+							}
+							if f.ClassifyReturn(v.Node) == ir.RetError {
+								return
+							}
+							last := rs.Results[len(rs.Results)-1]
+							if o := f.ObjOf(last); o != nil && val(o)&2 == 0 {
+								return // non-nil on this path
+							}
+							leak = true
+						})
+					}
 					if !leak {
 						good = true
 					}
@@ -560,34 +613,42 @@ func c11r2(c *Ctx) {
 					}
 				}
 			}
-			// failing edge returns an error; success returns only via loop exit or a failed RPC
+			// failing edge returns an error; success returns only via loop exit or a failed RPC. Both are decided per
+			// path (the error may be stored in a result variable and handed back at a single exit, the loop left by
+			// break): a return counts as an error return when its error operand is non-nil on the path taken
+			definitelyErr := func(v *cfgx.Visit, val func(types.Object) uint64) bool {
+				if f.ClassifyReturn(v.Node) == ir.RetError {
+					return true
+				}
+				rs, _ := v.Node.AST.(*ast.ReturnStmt)
+				if rs == nil || len(rs.Results) == 0 {
+					return false
+				}
+				o := f.ObjOf(rs.Results[len(rs.Results)-1])
+				return o != nil && val(o)&2 == 0
+			}
 			failsErr := true
-			for n := range f.ReachableFromEdges(chk.Fail, func(n *cfgx.Node) bool { return n == head }) {
-				if _, isRet := n.AST.(*ast.ReturnStmt); isRet && f.ClassifyReturn(n) != ir.RetError {
-					failsErr = false
-				}
+			var fromFail []*cfgx.Visit
+			for _, e := range chk.Fail {
+				fromFail = append(fromFail, cfgx.StartAfter(e, 0))
 			}
-			var errNonNil []*cfgx.Edge
-			for _, n := range g.Nodes {
-				if n.Block != nil && n.Block.Cond == n.AST && len(n.Succs) == 2 {
-					if _, nonNilOnTrue, ok := f.NilTest(n.AST.(ast.Expr)); ok && !containsNode(head.AST.(*ast.RangeStmt).Body, n.AST) {
-						if nonNilOnTrue {
-							errNonNil = append(errNonNil, n.Succs[0])
-						} else {
-							errNonNil = append(errNonNil, n.Succs[1])
-						}
+			f.ExploreFeasibleWith(fromFail, cfgx.Walker{AtNode: func(n *cfgx.Node, s cfgx.State) (cfgx.State, bool) { return s, n != head }},
+				func(v *cfgx.Visit, val func(types.Object) uint64) {
+					if _, isRet := v.Node.AST.(*ast.ReturnStmt); isRet && !definitelyErr(v, val) {
+						failsErr = false
 					}
-				}
-			}
+				})
 			via := true
-			for _, ret := range g.Returns() {
-				if f.ClassifyReturn(ret) == ir.RetError {
-					continue
+			f.ExploreFeasibleWith([]*cfgx.Visit{cfgx.StartAt(g.Entry, 0)}, cfgx.Walker{OnEdge: func(e *cfgx.Edge, s cfgx.State) (cfgx.State, bool) {
+				if e == exit {
+					s |= 1
 				}
-				if !f.OnlyVia(ret, append([]*cfgx.Edge{exit}, errNonNil...)) {
+				return s, true
+			}}, func(v *cfgx.Visit, val func(types.Object) uint64) {
+				if _, isRet := v.Node.AST.(*ast.ReturnStmt); isRet && v.State&1 == 0 && !definitelyErr(v, val) {
 					via = false
 				}
-			}
+			})
 			if adv && failsErr && via {
 				good = true
 			}
@@ -671,15 +732,36 @@ func c11r2(c *Ctx) {
 			fromElse := worker.ReachableFromEdges([]*cfgx.Edge{elseEdge}, nil)
 			n := 0
 			good = len(exits) > 0
+			isKept := map[*cfgx.Node]bool{}
 			for _, node := range kept {
-				if _, ok := fromElse[node]; !ok {
-					continue
-				}
-				n++
-				if reachAvoidingEdges(g, elseEdge, node, nil, cut) {
-					good = false
+				if _, ok := fromElse[node]; ok {
+					isKept[node] = true
+					n++
 				}
 			}
+			// (per path: a return that hands back a block list known to be nil there — a failure exit of a worker that
+			// fills its response field by field — keeps nothing)
+			worker.ExploreFeasibleWith([]*cfgx.Visit{cfgx.StartAfter(elseEdge, 0)}, cfgx.Walker{
+				OnEdge: func(e *cfgx.Edge, s cfgx.State) (cfgx.State, bool) { return s, !cut[e] },
+			}, func(v *cfgx.Visit, val func(types.Object) uint64) {
+				if !isKept[v.Node] {
+					return
+				}
+				if rs, isRet := v.Node.AST.(*ast.ReturnStmt); isRet {
+					holds := false
+					ir.Walk(rs, false, func(x ast.Node) {
+						if id, ok := x.(*ast.Ident); ok {
+							if lv, isVar := worker.ObjOf(id).(*types.Var); isVar && !lv.IsField() && isBlockList(lv.Type()) && val(lv)&1 != 0 {
+								holds = true
+							}
+						}
+					})
+					if !holds {
+						return
+					}
+				}
+				good = false
+			})
 			if n == 0 {
 				good = false
 			}
@@ -1001,10 +1083,14 @@ func c11r5(c *Ctx) {
 // checkpoint block); the sync workers run without a recover. Each such access
 // must be reached only through the adequate side of a test of len(X).
 func c11r6(c *Ctx) {
-	for _, f := range c.P.Funcs {
-		if f.Pkg.PkgPath != ir.PkgPath("syncer") {
-			continue
-		}
+	// every function unit of the package with its helpers, closures and literal tables expanded, and the
+	// literals that remain (goroutine bodies, callbacks)
+	var units []*ir.Func
+	for _, r := range c.P.Views("syncer", ir.ExpandOpt{Key: "all"}).Roots {
+		units = append(units, r)
+		units = append(units, r.Lits...)
+	}
+	for _, f := range units {
 		g := f.Graph()
 		// the positional accesses, grouped by the list they subscript (one obligation per list and function,
 		// however many times its first/last element is read)
